@@ -16,6 +16,84 @@ reg("selftest::twin_ok", unwind=3, family="selftest", functions=["intpack::U24nU
 reg("selftest::twin_fail", unwind=3, family="selftest", functions=["intpack::U24nU8::{a,b}"])
 
 
+# ---- U-utf8 / U-map -------------------------------------------------------------------------
+SC = ALL_CHARS
+reg("u_utf8::two_chars", unwind=6, family="U", states=1, transitions=SC * SC,
+    bounds="all pairs of Unicode scalar values (1-4 byte encodings)", timeout_s=(600, 1200),
+    functions=["charwise::iter::CharWithEndOffsetIterator::next"])
+reg("u_utf8::three_chars_offsets", unwind=6, family="U", states=1, transitions=SC ** 3,
+    bounds="all triples of Unicode scalar values", timeout_s=(900, 1800),
+    functions=["charwise::iter::CharWithEndOffsetIterator::next"])
+reg("u_map::new_bijective", unwind=7, family="U", states=1, transitions=2 ** 32,
+    bounds="frequency tables of <= 4 entries with arbitrary u32 frequencies; any char for the out-of-table probe",
+    timeout_s=(900, 1800), functions=["charwise::mapper::CodeMapper::{new,get,alphabet_size}"])
+
+# ---- U-ser ----------------------------------------------------------------------------------
+# default unwind small (Vec plumbing, element loops <= 3); the byte-compare helper `same` and the
+# A-ser image comparison loop get their own bounds through --unwindset.
+_SERF = ["serializer::Serializable for primitives / Option<NonZeroU32> / Empty", "serializer::SerializableVec for Vec<S>",
+         "intpack::U24nU8::{serialize_to_vec,deserialize_from_slice,a,b,set_a,set_b}", "MatchKind::{serialize_to_vec,deserialize_from_slice,From<u8>}",
+         "bytewise::State::{serialize_to_vec,deserialize_from_slice,set_*}", "charwise::State::{serialize_to_vec,deserialize_from_slice}",
+         "Output<V>::{serialize_to_vec,deserialize_from_slice}", "CodeMapper::{serialize_to_vec,deserialize_from_slice}"]
+_SAME = [("u_ser::same", 30), ("memcmp", 34)]
+for _t in ("u8", "u16", "u32", "u64", "u128", "i8", "i16", "i32", "i64", "i128", "usize", "isize"):
+    reg("u_ser::prim_%s" % _t, unwind=6, unwindset=_SAME, family="U", transitions=2 ** 16,
+        bounds="all values of %s, 2 arbitrary trailing bytes" % _t, functions=_SERF[:1])
+    reg("u_ser::bw_output_%s" % _t, unwind=6, unwindset=_SAME, family="U", transitions=2 ** 32,
+        bounds="all (value,length,parent), 2 trailing bytes", functions=[_SERF[6]])
+for _n in ("empty", "opt_nz", "packed", "match_kind", "match_kind_bytes", "bw_state", "cw_state", "vec_u32", "vec_bw_state",
+           "vec_cw_state", "mapper", "user_type_output", "bw_output_empty", "vec_bw_output_empty"):
+    reg("u_ser::" + _n, unwind=6, unwindset=_SAME, family="U", transitions=2 ** 32,
+        bounds="all field values; vectors of symbolic length 0..3 (mapper table 0..2); 2 trailing bytes", functions=_SERF)
+for _m, _ts in (("bw", ("u8", "u16", "u32", "u64", "u128", "i128")), ("cw", ("u8", "u32", "u128"))):
+    for _t in _ts:
+        reg("u_ser::vec_%s_output_%s" % (_m, _t), unwind=6, unwindset=_SAME, family="U", transitions=2 ** 32, timeout_s=(900, 1800),
+            bounds="Vec<Output<%s>> of symbolic length 0..3, all field values, 2 trailing bytes" % _t, functions=_SERF[1:2] + _SERF[6:7])
+for _n, _u in (("cw_image", 140), ("cw_image_lm", 140), ("cw_image_u128", 170), ("cw_image_u8", 140)):
+    reg("a_ser::" + _n, unwind=8, unwindset=[("a_ser::" + _n, _u), ("memcmp", _u)], family="A", timeout_s=(900, 1800), mem_gb=12,
+        bounds="one concrete 4-slot char-wise image; 2 symbolic trailing bytes",
+        functions=["CharwiseDoubleArrayAhoCorasick::{serialize,deserialize_unchecked,eq}"])
+
+# ---- I family (inductive iterator steps over arbitrary small tables) -------------------------
+_IF_BW = ["bytewise::iter::{FindIterator,FindOverlappingIterator,FindOverlappingNoSuffixIterator,LestmostFindIterator}::next",
+          "bytewise::{next_state_id_unchecked,next_state_id_leftmost_unchecked,child_index_unchecked}", "Match::{start,end,value}", "U8SliceIterator::next"]
+_IF_CW = ["charwise::iter::{FindIterator,FindOverlappingIterator,FindOverlappingNoSuffixIterator,LestmostFindIterator}::next",
+          "charwise::{next_state_id_unchecked,next_state_id_leftmost_unchecked,child_index_unchecked}", "CodeMapper::get",
+          "CharWithEndOffsetIterator::next", "StrIterator::next", "Match::{start,end,value}"]
+for _v, _f in (("i_bw", _IF_BW), ("i_cw", _IF_CW)):
+    for _h, _txt in (("step_overlapping", "one next() from an arbitrary iterator state, <= 2 remaining labels"),
+                     ("step_no_suffix", "one next() from an arbitrary automaton state, <= 2 remaining labels"),
+                     ("find_two_calls", "public constructor, two next() calls, haystack <= 3 labels"),
+                     ("leftmost_two_calls", "public constructor, two next() calls, haystack <= 3 labels")):
+        reg("%s::%s" % (_v, _h), unwind=6, family="I", states=4, transitions=4 * 4, mem_gb=10, timeout_s=(1200, 3600),
+            bounds="all 4-slot tables under Inv (2 output records); " + _txt, functions=_f, cost=3 * 10 ** 6)
+        reg("%s::%s_n8" % (_v, _h), unwind=10, family="I", states=8, transitions=8 * 8, mem_gb=16, timeout_s=(3600, 7200),
+            bounds="all 8-slot tables under Inv (3 output records); " + _txt, functions=_f, cost=9 * 10 ** 6)
+
+# ---- S-lazy / U-val ---------------------------------------------------------------------------
+for _n in ("bw_find", "bw_overlapping", "bw_no_suffix", "cw_find", "cw_overlapping", "cw_no_suffix"):
+    reg("s_lazy::" + _n, unwind=6, family="S", states=4, transitions=16, mem_gb=12, timeout_s=(1500, 3600), cost=4 * 10 ** 6,
+        bounds="all 4-slot tables under Inv; haystack <= 2 bytes (char-wise: <= 2 arbitrary chars); every next() call up to the final None; "
+               "source with arbitrary valid size_hint lower bound",
+        functions=(_IF_BW if _n.startswith("bw") else _IF_CW) + ["find_iter_from_iter", "find_overlapping_iter_from_iter", "find_overlapping_no_suffix_iter_from_iter"])
+for _v in ("bw", "cw"):
+    for _t in ("u8", "u16", "u32", "u64", "u128", "i8", "i16", "i32", "i64", "i128", "usize", "isize", "empty"):
+        reg("u_val::%s_%s" % (_v, _t), unwind=5, family="U", states=2, transitions=2 ** 16, timeout_s=(900, 1800),
+            bounds="all values of the type; all haystacks <= 2 labels; every search method of the variant",
+            functions=(_IF_BW if _v == "bw" else _IF_CW))
+
+DEPS = {"s_lazy": ["i_bw", "i_cw"]}
+
+
+def modules_for(names):
+    mods = set()
+    for n in names:
+        m = module_of(n)
+        mods.add(m)
+        mods.update(DEPS.get(m, []))
+    return sorted(mods)
+
+
 def module_of(h):
     return h.split("::")[0]
 
